@@ -128,7 +128,12 @@ class Contract:
         for case in cases:
             if interp.path.branch(case.when):
                 if case.raises is not None:
-                    raise PyExc(VExc(case.raises, []))
+                    alts = case.raises.split("|")
+                    for alt in alts[:-1]:
+                        if interp.path.branch(interp.path.fresh(
+                                "excalt", z3.BoolSort())):
+                            raise PyExc(VExc(alt, []))
+                    raise PyExc(VExc(alts[-1], []))
                 if case.result is None:
                     raise Unsupported(f"contract {self.key} case {case.name} "
                                       f"has no result builder")
